@@ -166,7 +166,7 @@ func ruleDEFERFREE(p *Program, rep *Report) {
 					continue
 				}
 				_ = isStore
-				facts := blockFacts(b)
+				facts := p.ctxFacts(b)
 				good := facts.every(func(c conj) bool {
 					return c.has(func(a atom) bool {
 						call := callTo(a.v, v.has)
@@ -195,7 +195,7 @@ func ruleALLOCRECORDED(p *Program, rep *Report) {
 	v := newAllocVocab(p)
 	journals := func(fn *ssa.Function) bool {
 		found := false
-		for f := range staticReachLocal(fn) {
+		for f := range staticReach(p, fn) {
 			for _, b := range f.Blocks {
 				for _, ins := range b.Instrs {
 					// direct call  x.allocated.Add(id)  or bound method value  area.new.Add
@@ -345,7 +345,19 @@ func (v *allocVocab) endMarkerStores() []markerStore {
 	return out
 }
 
-func (v *allocVocab) mutatesRegionsNonAdding(fn *ssa.Function) bool {
+func (v *allocVocab) mutatesRegionsNonAdding(root *ssa.Function) bool {
+	for fn := range staticReach(v.p, root) {
+		if v.mutatesRegionsNonAddingLocal(fn) {
+			return true
+		}
+	}
+	return false
+}
+
+func (v *allocVocab) mutatesRegionsNonAddingLocal(fn *ssa.Function) bool {
+	if fn == v.flAddRegion || fn == v.flAddRegions {
+		return false // adding is not trimming
+	}
 	for _, b := range fn.Blocks {
 		for _, ins := range b.Instrs {
 			if st, ok := ins.(*ssa.Store); ok {
@@ -395,7 +407,7 @@ func ruleINVFL(p *Program, rep *Report) {
 			}
 		}
 		// (2) guarded raise: dominated by old < new where new is the stored value (or the same field of another area)
-		facts := blockFacts(st.Block())
+		facts := p.ctxFacts(st.Block())
 		raised := facts.every(func(c conj) bool {
 			return c.has(func(a atom) bool {
 				op, x, y, ok := cmpAtom(a)
@@ -512,7 +524,7 @@ func ruleCAPACITY(p *Program, rep *Report) {
 				}
 				rep.Analysed(funcName(fn))
 				key := funcName(fn) + "|allocFromArea"
-				facts := blockFacts(b)
+				facts := p.ctxFacts(b)
 				how := ""
 				good := facts.every(func(cj conj) bool {
 					return cj.has(func(a atom) bool {
@@ -549,6 +561,47 @@ func ruleCAPACITY(p *Program, rep *Report) {
 					rep.OK("CAPACITY", key, p.InstrPos(ins), "guarded by "+how)
 				} else {
 					rep.Bad("CAPACITY", key, p.InstrPos(ins), "end marker advanced without a dominating capacity test (maxPages / Avail) or overflow flag: a bounded file can grow past its maximum size")
+				}
+			}
+		}
+	}
+	// capacity arithmetic: `maxPages - x` on unsigned values must be guarded by x < / <= maxPages,
+	// otherwise it wraps once the end marker lies beyond a (reduced) limit and the test passes vacuously
+	for _, fn := range p.SrcFuncs() {
+		if fnPkgPath(fn) != modPath {
+			continue
+		}
+		for _, b := range fn.Blocks {
+			for _, ins := range b.Instrs {
+				bo, ok := ins.(*ssa.BinOp)
+				if !ok || bo.Op != token.SUB || loadedField(bo.X) != v.fMaxPages {
+					continue
+				}
+				if bt, ok := bo.Type().Underlying().(*types.Basic); !ok || bt.Info()&types.IsUnsigned == 0 {
+					continue
+				}
+				rep.Analysed(funcName(fn))
+				key := funcName(fn) + "|maxPages-x"
+				guarded := p.ctxFacts(b).every(func(cj conj) bool {
+					return cj.has(func(a atom) bool {
+						op, x, y, ok := cmpAtom(a)
+						if !ok {
+							return false
+						}
+						same := func(p, q ssa.Value) bool { return sameValueOrField(p, q) || stripConv(p) == stripConv(q) }
+						switch op {
+						case token.LSS, token.LEQ: // y' < maxPages
+							return same(x, bo.Y) && loadedField(y) == v.fMaxPages
+						case token.GTR, token.GEQ: // maxPages > y'
+							return loadedField(x) == v.fMaxPages && same(y, bo.Y)
+						}
+						return false
+					})
+				})
+				if guarded {
+					rep.OK("CAPACITY", key, p.InstrPos(ins), "unsigned subtraction guarded by x < maxPages")
+				} else {
+					rep.Bad("CAPACITY", key, p.InstrPos(ins), "`maxPages - x` is computed on unsigned values without a dominating x < maxPages test: when the end marker lies beyond the limit (file shrunk on open) the difference wraps around, the capacity test passes and the end marker is advanced past the maximum size without the overflow area being enabled")
 				}
 			}
 		}
@@ -642,7 +695,18 @@ func ruleUNDOJOURNAL(p *Program, rep *Report) {
 				}
 				rep.Analysed(funcName(fn))
 				journaled := false
-				for _, bb := range fn.Blocks {
+				outer := fn
+				for outer.Parent() != nil {
+					outer = outer.Parent()
+				}
+				var scan []*ssa.BasicBlock
+				for g := range staticReach(p, outer) {
+					if fnPkgPath(g) == modPath {
+						scan = append(scan, g.Blocks...)
+					}
+				}
+				scan = append(scan, fn.Blocks...)
+				for _, bb := range scan {
 					for _, i2 := range bb.Instrs {
 						if c, ok := i2.(ssa.CallInstruction); ok && len(c.Common().Args) > 0 {
 							if fa, ok := c.Common().Args[0].(*ssa.FieldAddr); ok && journalFields[fieldOfAddr(fa)] {
